@@ -489,12 +489,9 @@ func init() {
 	sw(respType{name: "*structs.IndexedServices", mapOrder: true,
 		gen: func(g *G) any {
 			m := structs.Services{}
+			used := map[string]bool{}
 			for i := 0; i < g.count(); i++ {
-				name := g.name(g.want(i), svcNames)
-				for m[name] != nil {
-					name += "x"
-				}
-				m[name] = []string{strconv.Itoa(g.id())}
+				m[g.distinct(g.want(i), svcNames, used)] = []string{strconv.Itoa(g.id())}
 			}
 			return &structs.IndexedServices{Services: m, QueryMeta: qm(g.f0())}
 		},
